@@ -4,6 +4,7 @@ after body, in frameset, after frameset, after after body, after after frameset.
 
 Built on U-tmpl's file."""
 import dataclasses
+import re
 
 import u_tmpl
 import u_stack
@@ -16,13 +17,23 @@ SHARED_CONTRACTS = ['u_tmpl.contracts', 'u_fcontent.contracts', 'u_stack.contrac
 RLIMIT = 60
 H = u_stack.H
 R = u_tmpl.R
-MODES = [('Initial', 'initial'), ('Text', 'text'), ('AfterBody', 'after_body'), ('InFrameset', 'in_frameset'), ('AfterFrameset', 'after_frameset'),
+# blocks of the form `InsertionMode::X => { let anything_else = |token| {..}; match token {..} }`
+BLOCK_MODES = [('BeforeHtml', 'before_html'), ('BeforeHead', 'before_head'), ('InHeadNoscript', 'in_head_noscript'), ('AfterHead', 'after_head')]
+MODES = [('InColumnGroup', 'in_column_group'), ('Initial', 'initial'), ('Text', 'text'), ('AfterBody', 'after_body'), ('InFrameset', 'in_frameset'), ('AfterFrameset', 'after_frameset'),
          ('AfterAfterBody', 'after_after_body'), ('AfterAfterFrameset', 'after_after_frameset')]
 
 REWRITES = u_tmpl.REWRITES + [
     Rewrite('S-fragment-close', r'\}\s*\Z', '} }', only=tuple('TreeBuilder::step__' + n for _, n in MODES)),
     Rewrite('R1-receiver', r'(fn \w+(?:<[^>]*>)?\(\s*)&self\b', r'\1&mut self', only=('TreeBuilder::append_comment_to_doc', 'TreeBuilder::append_comment_to_html', 'TreeBuilder::set_quirks_mode')),
     Rewrite('R15-msg', r'unreachable!\(', 'unreachable!("x")', balanced=True),
+    # R41: a local closure that mutates the tree builder through `self` (`let anything_else = |token: Token| { BODY };`, called as
+    #      `anything_else(token)` in tail position of match arms, at most once on every path) is inlined at its call sites through
+    #      a local macro with the same body: Verus does not accept closures that capture `&mut self`
+    Rewrite('R41-inline-closure', r'let anything_else = \|token: Token\| \{(.*?)\n(\s*)\};',
+            r'macro_rules! anything_else { ($t:expr) => {{ let token: Token = $t;\1\n\2}} }', flags=re.S, only=tuple('TreeBuilder::step__' + n for _, n in BLOCK_MODES), min_count=4),
+    Rewrite('R41-inline-closure', r'\banything_else\(token\)', 'anything_else!(token)', only=tuple('TreeBuilder::step__' + n for _, n in BLOCK_MODES), min_count=8),
+    Rewrite('R1-receiver', r'(fn \w+(?:<[^>]*>)?\(\s*)&self\b', r'\1&mut self', only=('TreeBuilder::create_root',)),
+    Rewrite('R1-receiver', r'create_element\(\s*&self\.sink,', 'create_element(&mut self.sink,', only=('TreeBuilder::create_root',), min_count=1),
 ]
 
 
@@ -41,8 +52,9 @@ def _assume(p):
 BASE = [q for q in (_assume(p) for p in u_tmpl.PARTS[:-1]) if q is not None]
 PARTS = BASE + [
     Prelude('modes.spec.rs'),
-    tb('append_comment_to_doc'), tb('append_comment_to_html'), tb('set_quirks_mode'),
-] + [Fragment(R, 'step', 'TreeBuilder', r'InsertionMode::%s => match token \{' % m,
+    tb('append_comment_to_doc'), tb('append_comment_to_html'), tb('set_quirks_mode'), tb('create_root'),
+] + [Fragment(R, 'step', 'TreeBuilder', r'InsertionMode::%s => \{' % m, 'fn step__%s(&mut self, token: Token) -> ProcessResult' % n, 'step__%s' % n, wrap='impl TreeBuilder')
+     for m, n in BLOCK_MODES] + [Fragment(R, 'step', 'TreeBuilder', r'InsertionMode::%s => match token \{' % m,
               'fn step__%s(&mut self, token: Token) -> ProcessResult { match token' % n, 'step__%s' % n, wrap='impl TreeBuilder')
      for m, n in MODES] + [
     Raw('} // verus!\nfn main() {}'),
